@@ -106,6 +106,18 @@ static void compare(const Map &m, const Ref &r)
     vf_observe("entries", m.entries());
 }
 
+#ifdef VF_THOROUGH
+#define N_LRU 5
+#define N_TTL 4
+#define N_SIZES 2
+#define DEL_KEYS 1 /* 5-step sequences: del() only for key 1 */
+#else
+#define DEL_KEYS 3
+#define N_LRU 4
+#define N_TTL 3
+#define N_SIZES 2
+#endif
+
 // what is symbolic and what is case-split differs per entry
 struct Params {
     bool symbolicSizes;   // key lengths (8 bit), value sizes (8 bit, or 2^64-1 minus 8 bit: overflows the accounting) and capacities (16 bit)
@@ -159,7 +171,7 @@ static void clpSequence(const Params p)
             if (got && want) vf_assert(got->v == want->v, "get() returns the value added last for the key");
             if (got) vf_reach("hit"); else vf_reach("miss");
         } else if (op == 2) { // del
-            const Key &k = keys[pick(p.nkeys, "key")];
+            const Key &k = keys[pick(DEL_KEYS, "key")];
             m.del(k); r.del(k.id, now);
         } else if (op == 3) { // capacity change
             const uint64_t cap = anyCapacity(p, keys, false);
@@ -175,15 +187,6 @@ static void clpSequence(const Params p)
     WITNESS_POINT();
 }
 
-#ifdef VF_THOROUGH
-#define N_LRU 5
-#define N_TTL 4
-#define N_SIZES 3
-#else
-#define N_LRU 4
-#define N_TTL 3
-#define N_SIZES 2
-#endif
 // capacity/LRU: concrete sizes, capacities from a list, no expiry
 extern "C" void c51_lru(void) { clpSequence(Params{false, false, 3, N_LRU}); }
 // lifetime: concrete sizes, symbolic TTLs and clock, two keys, capacity for one entry or unlimited, operations add/get/clock
